@@ -1,0 +1,304 @@
+//go:build verif
+
+package participle
+
+import (
+	"encoding"
+	"encoding/json"
+	"fmt"
+	"os"
+	"reflect"
+	"strings"
+	"sync"
+
+	"github.com/alecthomas/participle/v2/lexer"
+)
+
+// Recording of parses for verification harnesses (build tag "verif"): when VerifParseRecorder is set (or the
+// environment variable VERIF_PARSE_RECORD names a file), every ParseFromLexer call is reported as one JSON record
+// holding the grammar's node graph, the token stream, the options and whether the parse succeeded. Nothing here
+// influences parsing.
+
+// VerifParseRecorder receives one JSON document per completed parse.
+var VerifParseRecorder func(record []byte)
+
+var (
+	verifMu      sync.Mutex
+	verifPending = map[*parseContext]map[string]any{}
+	verifGraphs  = map[node]map[string]any{}
+)
+
+func init() {
+	if path := os.Getenv("VERIF_PARSE_RECORD"); path != "" {
+		f, err := os.OpenFile(path, os.O_CREATE|os.O_APPEND|os.O_WRONLY, 0o644)
+		if err == nil {
+			VerifParseRecorder = func(record []byte) {
+				verifMu.Lock()
+				defer verifMu.Unlock()
+				_, _ = f.Write(append(record, '\n'))
+			}
+		}
+	}
+}
+
+func verifParseStart(root node, ctx *parseContext, symbols map[string]lexer.TokenType, elide []lexer.TokenType) {
+	if VerifParseRecorder == nil {
+		return
+	}
+	defer func() { _ = recover() }()
+	names := map[lexer.TokenType]string{}
+	for n, t := range symbols {
+		names[t] = n
+	}
+	elided := map[lexer.TokenType]bool{}
+	for _, t := range elide {
+		elided[t] = true
+	}
+	toks := []map[string]any{}
+	cp := ctx.PeekingLexer
+	for i := 0; i < 1<<20; i++ {
+		t := cp.RawPeek()
+		if t.EOF() {
+			toks = append(toks, map[string]any{"t": "EOF", "v": "", "fv": "", "el": false})
+			break
+		}
+		toks = append(toks, map[string]any{"t": names[t.Type], "v": t.Value, "fv": strings.ToLower(t.Value), "el": elided[t.Type]})
+		cp.FastForward(cp.RawCursor())
+	}
+	ci := []string{}
+	for t := range ctx.caseInsensitive {
+		ci = append(ci, names[t])
+	}
+	verifMu.Lock()
+	g, ok := verifGraphs[root]
+	if !ok {
+		g = verifExportGrammar(root, names)
+		verifGraphs[root] = g
+	}
+	verifPending[ctx] = map[string]any{"grammar": g, "toks": toks, "k": ctx.lookahead, "trailing": ctx.allowTrailing, "citypes": ci}
+	verifMu.Unlock()
+}
+
+func verifParseEnd(ctx *parseContext, err error) {
+	if VerifParseRecorder == nil {
+		return
+	}
+	verifMu.Lock()
+	rec, ok := verifPending[ctx]
+	delete(verifPending, ctx)
+	verifMu.Unlock()
+	if !ok {
+		return
+	}
+	rec["ok"] = err == nil
+	rec["err"] = ""
+	if err != nil {
+		rec["err"] = err.Error()
+	}
+	if b, jerr := json.Marshal(rec); jerr == nil {
+		VerifParseRecorder(b)
+	}
+}
+
+type verifExporter struct {
+	names       map[lexer.TokenType]string
+	prods       []map[string]any
+	prodName    map[*strct]string
+	unions      map[string][]string
+	unionName   map[*union]string
+	unsupported string
+}
+
+func verifExportGrammar(root node, names map[lexer.TokenType]string) map[string]any {
+	e := &verifExporter{names: names, prodName: map[*strct]string{}, unions: map[string][]string{}, unionName: map[*union]string{}}
+	rootName := ""
+	switch r := root.(type) {
+	case *strct:
+		rootName = e.prod(r)
+	case *union:
+		// a union root: wrap it in a synthetic production
+		body := e.node(r)
+		e.prods = append([]map[string]any{{"name": "VerifRoot", "fields": []any{}, "body": body}}, e.prods...)
+		rootName = "VerifRoot"
+	default:
+		e.unsupported = fmt.Sprintf("root node %T", root)
+	}
+	// the root production first
+	for i, p := range e.prods {
+		if p["name"] == rootName && i != 0 {
+			e.prods[0], e.prods[i] = e.prods[i], e.prods[0]
+		}
+	}
+	return map[string]any{"prods": e.prods, "unions": e.unions, "unsupported": e.unsupported, "maxiter": MaxIterations}
+}
+
+func (e *verifExporter) prod(s *strct) string {
+	if n, ok := e.prodName[s]; ok {
+		return n
+	}
+	name := fmt.Sprintf("%s_%d", ebnfTypeName(s.typ), len(e.prodName))
+	e.prodName[s] = name
+	p := map[string]any{"name": name, "fields": []any{}}
+	e.prods = append(e.prods, p)
+	fields := []any{}
+	seen := map[string]bool{}
+	var collect func(n node)
+	collect = func(n node) {
+		_ = visit(n, func(n node, next func() error) error {
+			switch c := n.(type) {
+			case *strct, *union:
+				return nil
+			case *capture:
+				if !seen[c.field.Name] {
+					seen[c.field.Name] = true
+					kind, arg := e.fieldKind(c.field.Type, c.node)
+					fields = append(fields, map[string]any{"name": c.field.Name, "kind": kind, "arg": arg, "tag": ""})
+				}
+			}
+			return next()
+		})
+	}
+	collect(s.expr)
+	p["fields"] = fields
+	p["body"] = e.node(s.expr)
+	return name
+}
+
+var (
+	verifCaptureType     = reflect.TypeOf((*Capture)(nil)).Elem()
+	verifUnmarshalerType = reflect.TypeOf((*encoding.TextUnmarshaler)(nil)).Elem()
+)
+
+func (e *verifExporter) fieldKind(t reflect.Type, child node) (kind, arg string) {
+	for t.Kind() == reflect.Ptr {
+		t = t.Elem()
+	}
+	if t == tokenType {
+		return "token", ""
+	}
+	if t == tokensType {
+		return "tokens", ""
+	}
+	if t.Implements(verifCaptureType) || reflect.PtrTo(t).Implements(verifCaptureType) || reflect.PtrTo(t).Implements(verifUnmarshalerType) {
+		e.unsupported = "custom Capture/TextUnmarshaler field"
+		return "string", ""
+	}
+	slice := false
+	if t.Kind() == reflect.Slice {
+		slice = true
+		t = t.Elem()
+		for t.Kind() == reflect.Ptr {
+			t = t.Elem()
+		}
+		if t.Implements(verifCaptureType) || reflect.PtrTo(t).Implements(verifCaptureType) {
+			e.unsupported = "custom Capture slice field"
+		}
+	}
+	suffix := ""
+	if slice {
+		suffix = "s"
+	}
+	switch t.Kind() {
+	case reflect.String:
+		return "string" + suffix, ""
+	case reflect.Bool:
+		if slice {
+			e.unsupported = "[]bool field"
+		}
+		return "bool", ""
+	case reflect.Struct, reflect.Interface:
+		target := ""
+		_ = visit(child, func(n node, next func() error) error {
+			switch c := n.(type) {
+			case *strct:
+				if target == "" {
+					target = e.prod(c)
+				}
+				return nil
+			case *union:
+				if target == "" {
+					target = e.union(c)
+				}
+				return nil
+			}
+			return next()
+		})
+		if t.Kind() == reflect.Interface {
+			return "union" + suffix, target
+		}
+		return "node" + suffix, target
+	case reflect.Int, reflect.Int8, reflect.Int16, reflect.Int32, reflect.Int64, reflect.Uint, reflect.Uint8, reflect.Uint16, reflect.Uint32, reflect.Uint64, reflect.Float32, reflect.Float64:
+		e.unsupported = "numeric field (conversion oracle not recorded)"
+		return "string" + suffix, ""
+	}
+	e.unsupported = "field type " + t.String()
+	return "string", ""
+}
+
+func (e *verifExporter) union(u *union) string {
+	if n, ok := e.unionName[u]; ok {
+		return n
+	}
+	name := fmt.Sprintf("%s_u%d", ebnfTypeName(u.typ), len(e.unionName))
+	e.unionName[u] = name
+	members := []string{}
+	for _, m := range u.disjunction.nodes {
+		switch c := m.(type) {
+		case *strct:
+			members = append(members, e.prod(c))
+		default:
+			e.unsupported = fmt.Sprintf("union member %T", m)
+		}
+	}
+	e.unions[name] = members
+	return name
+}
+
+func (e *verifExporter) typeName(t lexer.TokenType) string {
+	if t == lexer.EOF {
+		return ""
+	}
+	return e.names[t]
+}
+
+func (e *verifExporter) node(n node) map[string]any {
+	switch n := n.(type) {
+	case *strct:
+		return map[string]any{"op": "prod", "p": e.prod(n)}
+	case *union:
+		return map[string]any{"op": "union", "u": e.union(n)}
+	case *disjunction:
+		kids := []any{}
+		for _, c := range n.nodes {
+			kids = append(kids, e.node(c))
+		}
+		return map[string]any{"op": "alt", "kids": kids}
+	case *sequence:
+		kids := []any{}
+		for s := n; s != nil; s = s.next {
+			kids = append(kids, e.node(s.node))
+		}
+		return map[string]any{"op": "seq", "kids": kids}
+	case *capture:
+		kind, _ := e.fieldKind(n.field.Type, n.node)
+		return map[string]any{"op": "cap", "f": n.field.Name, "fk": kind, "kid": e.node(n.node)}
+	case *reference:
+		t := e.names[n.typ]
+		if n.typ == lexer.EOF {
+			t = "EOF"
+		}
+		return map[string]any{"op": "ref", "t": t}
+	case *literal:
+		return map[string]any{"op": "lit", "s": n.s, "t": e.typeName(n.t), "fs": strings.ToLower(n.s)}
+	case *negation:
+		return map[string]any{"op": "neg", "kid": e.node(n.node)}
+	case *lookaheadGroup:
+		return map[string]any{"op": "look", "neg": n.negative, "kid": e.node(n.expr)}
+	case *group:
+		mode := map[groupMatchMode]string{groupMatchOnce: "once", groupMatchZeroOrOne: "opt", groupMatchZeroOrMore: "star", groupMatchOneOrMore: "plus", groupMatchNonEmpty: "nonempty"}[n.mode]
+		return map[string]any{"op": "grp", "mode": mode, "kid": e.node(n.expr)}
+	default:
+		e.unsupported = fmt.Sprintf("node %T", n)
+		return map[string]any{"op": "lit", "s": "\x00unsupported", "t": "", "fs": ""}
+	}
+}
